@@ -48,6 +48,7 @@ var KINDS = {
   proxy2: function() { return new Proxy(new Proxy({}, FWD), {}); },
   proxyfunc: function() { return new Proxy(function() {}, FWD); },
   proxyarr: function() { return new Proxy([], FWD); },
+  proxyarr2: function() { return new Proxy(new Proxy(new Proxy([], FWD), {}), FWD); },     // three layers over an Array
   goproxy: function() { return __goProxy({}); },
   gomap: function() { return __goMapObject(); },
 };
@@ -127,6 +128,13 @@ function obs() {
     if (Reflect.getPrototypeOf(o) !== p) props._err = "getPrototypeOf disagree";
     var pn = p === BASEPROTO[n] ? "null" : nameOf(p);
     if (Object.isExtensible(o) !== Reflect.isExtensible(o)) props._err = "isExtensible disagree";
+    // a forwarding proxy has the brand of its target (7.2.2 IsArray looks through every proxy layer; typeof / [[Call]] likewise)
+    var kd = n === CFG.objs[0] ? CFG.kind : (CFG.kind2 || "plain");
+    if (/^(proxy|goproxy)/.test(kd)) {
+      var want = /^proxyarr/.test(kd) ? "true,[object Array],object" : kd === "proxyfunc" ? "false,[object Function],function" : "false,[object Object],object";
+      var got = [Array.isArray(o), Object.prototype.toString.call(o), typeof o].join();
+      if (got !== want) props._err = "brand of the proxy: " + got + ", of its target: " + want;
+    }
     var ord = ourKeys(o);
     // the model keeps creation order; the observable order is OwnKeys: compare as a multiset here, the order via the ownkeys action
     st[n] = {props: props, order: ord, ext: tf(Object.isExtensible(o)), proto: pn};
